@@ -442,6 +442,58 @@ Fixpoint remote_run (s : session) (ops : list op) : list res :=
 
 End Session.
 
+(* ============================ what the theorems assume of the endpoint *)
+
+(* local/endpoint.go Stage, first statements: a read-only endpoint refuses,
+   then the same two argument checks the client makes. *)
+Definition local_stage_front (read_only : bool) (paths : list pathT) (digests : list digestT)
+  : option stage_answer :=
+  if read_only then Some (GAErr "endpoint is in read-only mode"%string)
+  else if negb (List.length paths =? List.length digests)
+       then Some (GAErr "path count does not match digest count"%string)
+       else if List.length paths =? 0 then Some (GAOk [] [])
+            else None.
+
+(* the known-finding class: Stage with no paths and no digests on a read-only
+   endpoint (the local endpoint fails, the client reports "nothing to stage") *)
+Definition known_c21 (read_only : bool) (o : op) : bool :=
+  match o with
+  | OpStage [] [] => read_only
+  | _ => false
+  end.
+
+Definition stage_answer_wf (req : list pathT) (a : stage_answer) : Prop :=
+  match a with
+  | GAOk ps ss => subseq ps req /\ List.length ss = List.length ps /\ forallb fsig_valid ss = true
+  | GAErr m => m <> ""%string
+  end.
+
+Definition trans_answer_wf (n : nat) (a : trans_answer) : Prop :=
+  match a with
+  | TAOk rs ps _ => List.length rs = n /\ forallb result_valid rs = true
+                    /\ forallb problem_valid ps = true
+  | TAErr m => m <> ""%string
+  end.
+
+(* An endpoint that honours the synchronization.Endpoint contract on its
+   answers and whose Stage begins as the local endpoint's does. *)
+Record endpoint_ok (read_only : bool) (St : Type) (E : endpoint St) : Prop := {
+  ok_scan : forall st full, answer_wf (snd (ep_scan E st full));
+  ok_stage : forall st ps ds, stage_answer_wf ps (snd (ep_stage E st ps ds));
+  ok_stage_front : forall st ps ds a,
+      local_stage_front read_only ps ds = Some a -> ep_stage E st ps ds = (st, a);
+  ok_transition : forall st cs, trans_request_valid cs = true ->
+                                trans_answer_wf (List.length cs) (snd (ep_transition E st cs))
+}.
+
+(* what the caller must respect: serialisable ancestors, valid changes *)
+Definition op_wf (o : op) : Prop :=
+  match o with
+  | OpScan anc _ => marshal (of_ancestor anc) <> None
+  | OpStage _ _ => True
+  | OpTransition cs => trans_request_valid cs = true
+  end.
+
 (* ============================================== the property as a checker *)
 
 (* Two results are the same outcome: equal values, or both failures (for Scan
@@ -544,3 +596,25 @@ Arguments is_error {snapshot pathT fsig result problem}.
 Arguments same_outcome {snapshot pathT fsig result problem}.
 Arguments same_outcome_prop {snapshot pathT fsig result problem}.
 Arguments check_c21 {snapshot pathT fsig result problem}.
+Arguments known_c21 {ancestor pathT digestT change}.
+Arguments local_stage_front {pathT digestT fsig}.
+Arguments answer_wf {snapshot bytes}. Arguments event_wf {snapshot ancestor bytes}.
+Arguments spec_update {snapshot bytes}. Arguments spec_trace {snapshot ancestor bytes sgn}.
+Arguments scan_trace {snapshot ancestor bytes sgn delta}.
+Arguments remote_scan {snapshot ancestor bytes sgn delta}.
+Arguments observe {snapshot bytes sgn delta}.
+Arguments local_step {snapshot ancestor pathT digestT fsig result problem change St}.
+Arguments local_run {snapshot ancestor pathT digestT fsig result problem change St}.
+Arguments remote_step {snapshot ancestor bytes sgn delta} _ _ _ _ _ _ _ _ _ _ _ {pathT digestT fsig} _ {result problem change} _ _ _ {St}.
+Arguments remote_run {snapshot ancestor bytes sgn delta} _ _ _ _ _ _ _ _ _ _ _ {pathT digestT fsig} _ {result problem change} _ _ _ {St}.
+Arguments endpoint_ok {snapshot bytes} _ _ {pathT digestT fsig} _ {result problem change} _ _ _ _ {St}.
+Arguments op_wf {snapshot ancestor bytes} _ _ {pathT digestT change}.
+Arguments stage_answer_wf {pathT fsig}. Arguments trans_answer_wf {result problem}.
+Arguments trans_request_valid {change}.
+Arguments ok_scan {snapshot bytes marshal snap_valid pathT digestT fsig fsig_valid result problem change result_valid problem_valid change_valid read_only St E}.
+Arguments ok_stage {snapshot bytes marshal snap_valid pathT digestT fsig fsig_valid result problem change result_valid problem_valid change_valid read_only St E}.
+Arguments ok_stage_front {snapshot bytes marshal snap_valid pathT digestT fsig fsig_valid result problem change result_valid problem_valid change_valid read_only St E}.
+Arguments ok_transition {snapshot bytes marshal snap_valid pathT digestT fsig fsig_valid result problem change result_valid problem_valid change_valid read_only St E}.
+Arguments ep_scan {snapshot pathT digestT fsig result problem change St}.
+Arguments ep_stage {snapshot pathT digestT fsig result problem change St}.
+Arguments ep_transition {snapshot pathT digestT fsig result problem change St}.
